@@ -1682,7 +1682,7 @@ pub fn eval_ternary_equality(lhs: &Value, rhs: &Value) -> Option<bool> {
     },
     Value::Null(_) => match rhs {
       Value::Null(_) => Some(true),
-      _ => None,
+      _ => Some(false),
     },
     Value::List(ls) => match rhs {
       Value::List(rs) => {
@@ -1701,7 +1701,10 @@ pub fn eval_ternary_equality(lhs: &Value, rhs: &Value) -> Option<bool> {
       Value::Null(_) => Some(false),
       _ => None,
     },
-    _ => None,
+    _ => match rhs {
+      Value::Null(_) => Some(false),
+      _ => None,
+    },
   }
 }
 
